@@ -172,7 +172,8 @@ Applicable(sc) ==
     \* cached integrals / amplitudes are valid only while no line-shape parameter floats (opt_int.py:133)
     /\ (sc.kind \in CachedKinds => sc.floating = "couplings")
     \* a constraint on the non-head name of a tie group needs a tie group
-    /\ (sc.constr = "tied" => sc.share = "tie")
+    \* ("head_and_tied": one constraint on the head and one on the tied name: two terms on one variable)
+    /\ (sc.constr \in {"tied", "head_and_tied"} => sc.share = "tie")
     \* bounds can only be put on floating parameters
     /\ (sc.bounds \in {"mass_two", "mixed"} => sc.floating \in {"mass", "mass_width"})
     /\ (sc.bounds = "width_lower" => sc.floating = "mass_width")
@@ -187,7 +188,7 @@ Applicable(sc) ==
 Scenarios ==
     {sc \in [kind : ScnKinds, floating : {"couplings", "mass", "mass_width"},
              bounds : {"none", "coupling_two", "coupling_lower", "coupling_upper", "mass_two", "width_lower", "mixed"},
-             share : {"none", "tie"}, constr : {"none", "head", "two_heads", "tied"}, batch : {"single", "ragged"},
+             share : {"none", "tie"}, constr : {"none", "head", "two_heads", "tied", "head_and_tied"}, batch : {"single", "ragged"},
              shape : {"columns", "bg_param", "eff_param", "bg_eff_param"},
              resolution : {1, 2},
              \* the calls made on ONE likelihood object: "single" = value, gradient, Hessian and one Hessian-vector
